@@ -1,7 +1,7 @@
 (* C07 - best, worst and tournament selection apply the intended selection pressure. *)
 From Coq Require Import List ZArith QArith.
 Import ListNotations.
-From UEC Require Import Base.Dist Ec.Select Ec.SelectProps Ec.LexProps Ec.TournamentCor.
+From UEC Require Import Base.Dist Ec.Select Ec.SelectProps Ec.LexProps Ec.TournamentCor Ec.TournamentLaw.
 
 Theorem C07_best_is_maximal : forall pol pop i,
   possible (select pol pop SBest) (inl i) ->
@@ -37,6 +37,16 @@ Theorem C07_cdf : forall pol pop k v,
 Proof. exact tournament_cdf. Qed.
 Print Assumptions C07_cdf.
 
+(* the law per individual when there are no ties: the individual of rank r (r = how many are at most as good,
+   itself included) wins a tournament of size k with probability C(r-1, k-1) / C(n, k) *)
+Theorem C07_rank_law : forall pol pop k i,
+  (1 <= k <= length pop)%nat -> (i < length pop)%nat ->
+  (forall a b, (a < length pop)%nat -> (b < length pop)%nat -> ikey pol pop a = ikey pol pop b -> a = b) ->
+  let r := count (fun j => (ikey pol pop j <=? ikey pol pop i)%Z) (seq 0 (length pop)) in
+  prob (select pol pop (STournament k)) (is_idx i) == qnat (binom (r - 1) (k - 1)) / qnat (binom (length pop) k).
+Proof. exact tournament_rank_law. Qed.
+Print Assumptions C07_rank_law.
+
 (* a tournament of size 1 is uniform random choice: every individual with probability exactly 1/n *)
 Theorem C07_size_1_is_uniform : forall pol pop i, (i < length pop)%nat ->
   prob (select pol pop (STournament 1)) (is_idx i) == 1 / qnat (length pop).
@@ -53,3 +63,10 @@ Example C07_example :
   (* four individuals 3 < 5 = 5 < 8, tournament of 2: P(winner <= 5) = C(3,2)/C(4,2) = 1/2 *)
   prob (select true [[3%Z]; [5%Z]; [8%Z]; [5%Z]] (STournament 2)) (key_le true [[3%Z]; [5%Z]; [8%Z]; [5%Z]] 5) == 1 # 2.
 Proof. vm_compute. reflexivity. Qed.
+
+Example C07_rank_example :
+  (* values 3 < 5 < 8 < 9, tournament of 2: the best wins with probability C(3,1)/C(4,2) = 1/2, the second with 1/3, the third 1/6, the worst never *)
+  let pop : population := [[5%Z]; [9%Z]; [3%Z]; [8%Z]] in
+  prob (select true pop (STournament 2)) (is_idx 1) == 1 # 2 /\ prob (select true pop (STournament 2)) (is_idx 3) == 1 # 3 /\
+  prob (select true pop (STournament 2)) (is_idx 0) == 1 # 6 /\ prob (select true pop (STournament 2)) (is_idx 2) == 0.
+Proof. vm_compute. repeat split. Qed.
